@@ -189,11 +189,20 @@ func (eng *Engine) checkProperty(prop, tier string) int {
 	// presence guard
 	// (the "@site" suffix that tells the back edges of one loop apart is ignored here: adding or removing a call or a
 	// `continue` renumbers the sites without dropping any clause)
+	// (likewise the "in:<callee>/" segments that say through which inlined helpers a clause was reached: moving a call from
+	// one helper to another keeps the clause)
 	baseName := func(n string) string {
 		if i := strings.Index(n, "@"); i >= 0 {
-			return n[:i]
+			n = n[:i]
 		}
-		return n
+		parts := strings.Split(n, "/")
+		var keep []string
+		for _, p := range parts {
+			if !strings.HasPrefix(p, "in:") {
+				keep = append(keep, p)
+			}
+		}
+		return strings.Join(keep, "/")
 	}
 	present := map[string]bool{}
 	for _, o := range all {
